@@ -53,7 +53,7 @@ def flag_vectors():
 LONG = {"n": "nasm", "t": "strict", "s": "smart", "p": "print", "P": "printfile", "c": "chunk", "b": "breaks", "r": "return", "o": "object"}
 
 
-RVARS = ("", "", "=3", "12", "rand")     # spellings of "run it": -r / --return, with LEN attached (-r=3 / --return=3, -r12), --rand (implies -r)
+RVARS = ("", "", "=3", "12", "rand", "rand+r", "r+rand", "rand+r=11")     # spellings of "run it": -r / --return, with LEN attached (-r=3 / --return=3, -r12), --rand (implies -r)
 
 
 def argv_of(f, paths, rlast=False, rvar=""):
@@ -87,6 +87,12 @@ def argv_of(f, paths, rlast=False, rvar=""):
     def rflag():
         if rvar == "rand":
             return ["--rand"]
+        if rvar == "rand+r":
+            return ["--rand"] + flag("r")
+        if rvar == "r+rand":
+            return flag("r") + ["--rand"]
+        if rvar == "rand+r=11":
+            return ["--rand", "-r=11" if spell == "short" else "--return=11"]      # the combination the usage text suggests
         if rvar == "":
             return flag("r")
         return ["-r" + rvar] if spell == "short" else ["--return=" + rvar.lstrip("=")]
